@@ -133,7 +133,10 @@ def make_md(sc: Dict[str, Any], prefix: str):
         "xyz": cad.get("xyz", 0),
         "h5": {k: cad.get(k, 0) for k in ("data", "coordinates", "velocities", "forces")},
     }
-    mol = Molecule(Constants(), sp, coords, species)
+    if sc.get("charges") is not None:
+        mol = Molecule(Constants(), sp, coords, species, charges=torch.as_tensor(sc["charges"], dtype=torch.float64))
+    else:
+        mol = Molecule(Constants(), sp, coords, species)
     eng = sc.get("engine", "basic")
     kw = dict(seqm_parameters=sp, timestep=sc.get("dt", 0.5), Temp=sc.get("temp", 300.0), output=out)
     if eng == "basic":
@@ -399,6 +402,13 @@ def in_process_run(sc: Dict[str, Any], tag="run") -> Dict[str, Any]:
     try:
         MD.Molecular_Dynamics_Basic._output_to_screen = scr
         mol, md = make_md(sc, prefix)
+        if sc.get("preset_velocities"):
+            g = np.random.default_rng(int(sc["preset_velocities"]))
+            real = (mol.species > 0).unsqueeze(-1).to(mol.coordinates.dtype)
+            v = torch.as_tensor(g.normal(size=tuple(mol.coordinates.shape)) * 0.01) * real
+            mass = mol.mass
+            v = (v - (mass * v).sum(1, keepdim=True) / mass.sum(1, keepdim=True)) * real
+            mol.velocities = v
         with contextlib.redirect_stdout(io.StringIO()):
             md.run(mol, sc["steps"], seed=sc.get("seed", 1), remove_com=sc.get("remove_com"), reuse_P=sc.get("reuse_P", True))
         out = {}
@@ -449,3 +459,73 @@ def _pm_call(fn, it):
         import traceback
 
         return RuntimeError(traceback.format_exc()[-1500:])
+
+
+# --------------------------------------------------------------------------- surface hopping runs (real engine)
+class _StopAfterCheckpoint(RuntimeError):
+    pass
+
+
+def _sh_child(sc, prefix, stop_at, q):
+    try:
+        import seqm.NonadiabaticDynamics as ND
+        from seqm.Molecule import Molecule
+        from seqm.seqm_functions.constants import Constants
+
+        species, coords = build_batch(sc.get("mols", ["h2o"]))
+        sp = {"method": "AM1", "scf_eps": 1e-8, "scf_converger": [1], "excited_states": {"n_states": sc.get("n_states", 2), "method": "cis"}}
+        cad = sc["cad"]
+        h5 = {k: cad.get(k, 0) for k in ("data", "coordinates", "velocities", "forces", "nonadiabatic") if cad.get(k, 0)}
+        out = {"molid": sc.get("molid", [0]), "prefix": prefix, "print every": 0, "checkpoint every": cad.get("ckpt", 0), "xyz": cad.get("xyz", 0), "h5": h5}
+        mol = Molecule(Constants(), sp, coords, species)
+        dyn = ND.SurfaceHoppingDynamics(seqm_parameters=sp, timestep=sc.get("dt", 0.5), Temp=sc.get("temp", 300.0), output=out, initial_state=1)
+        if stop_at is not None:
+            orig = dyn.save_checkpoint
+
+            def w(*a, **k):
+                orig(*a, **k)
+                if k.get("step_done") == stop_at:
+                    raise _StopAfterCheckpoint()
+            dyn.save_checkpoint = w
+        with contextlib.redirect_stdout(io.StringIO()):
+            try:
+                dyn.run(mol, steps=sc["steps"], reuse_P=True, remove_com=None, seed=sc.get("seed", 0))
+            except _StopAfterCheckpoint:
+                ND.SurfaceHoppingDynamics.run_from_checkpoint(prefix + ".restart.pt", device=torch.device("cpu"))
+        q.put({"ok": True})
+    except BaseException:
+        import traceback
+        q.put({"exc": traceback.format_exc()[-1500:]})
+
+
+def surface_hopping_run(sc: Dict[str, Any], stop_at: Optional[int] = None, timeout=900) -> Dict[str, Any]:
+    """real SurfaceHoppingDynamics run (optionally stopped right after the checkpoint of step `stop_at` and resumed);
+    returns the step labels of every HDF5 stream incl. /data/nonadiabatic and whether each NA row was written"""
+    import h5py
+
+    d = scratch_dir("sh")
+    prefix = os.path.join(d, "md")
+    try:
+        ctx = mp.get_context("fork")
+        q = ctx.Queue()
+        p = ctx.Process(target=_sh_child, args=(sc, prefix, stop_at, q))
+        p.start()
+        res = q.get(timeout=timeout)
+        p.join(10)
+        if "exc" in res:
+            raise RuntimeError(res["exc"])
+        out = {}
+        for m in sc.get("molid", [0]):
+            with h5py.File(f"{prefix}.{m}.h5", "r") as f:
+                o = {}
+                for name, path in (("data", "data/steps"), ("coordinates", "coordinates/steps"), ("velocities", "velocities/steps"), ("forces", "forces/steps"),
+                                   ("nonadiabatic", "data/nonadiabatic/steps")):
+                    o[name] = f[path][...].tolist() if path in f else []
+                if "data/nonadiabatic/active_surface" in f:
+                    act = f["data/nonadiabatic/active_surface"][...]
+                    amp = f["data/nonadiabatic/electronic_amplitudes"][...]
+                    o["na_rows_written"] = [bool(a >= 1 and abs(float((x ** 2).sum()) - 1.0) < 1e-2) for a, x in zip(act, amp)]
+                out[m] = o
+        return out
+    finally:
+        shutil.rmtree(d, ignore_errors=True)
